@@ -5,6 +5,7 @@ package main
 import (
 	"fmt"
 	"go/types"
+	"net"
 	"net/textproto"
 	"net/url"
 
@@ -243,11 +244,123 @@ func (w *World) registerHTTPIntrinsics() {
 		return mkUF("url_String", SStr, sargs...)
 	}
 
-	// net.SplitHostPort: results are unconstrained (callers in scope only log them)
+	// net.SplitHostPort: an uninterpreted function of its argument (callers in
+	// scope only log the results or rebuild a host from them)
 	I["net.SplitHostPort"] = func(e *Exec, fn *ssa.Function, a []Value) Value {
-		if e.branch(e.fresh("splithostport_ok", SBool)) {
-			return tuple(e.fresh("host", SStr), e.fresh("port", SStr), nilIface)
+		s := a[0].(*Term)
+		if sv, ok := s.strVal(); ok {
+			hh, pp, err := net.SplitHostPort(sv)
+			if err != nil {
+				return tuple(mkStr(""), mkStr(""), e.newError("net.SplitHostPort: "+err.Error()))
+			}
+			return tuple(mkStr(hh), mkStr(pp), nilIface)
+		}
+		if e.branch(mkUF("shp_ok", SBool, s)) {
+			return tuple(mkUF("shp_host", SStr, s), mkUF("shp_port", SStr, s), nilIface)
 		}
 		return tuple(mkStr(""), mkStr(""), e.newError("net.SplitHostPort: error"))
+	}
+	// Hostname/Port of a URL whose Host is itself an uninterpreted parse result
+	// stay uninterpreted; on any other Host the stdlib code is executed
+	hostPart := func(which string) intrinsicFn {
+		return func(e *Exec, fn *ssa.Function, a []Value) Value {
+			p := a[0].(*Pointer)
+			if isNilPtr(p) {
+				e.panicHere("nil pointer dereference (nil *url.URL)")
+			}
+			host := e.load(e.structField(p, "Host")).(*Term)
+			if host.op == "uf:urlparse_Host" || host.op == "uf:shp_host" {
+				return mkUF("url_"+which, SStr, host)
+			}
+			e.res.Funcs[fn.String()]++
+			fr := &Frame{fn: fn, env: map[ssa.Value]Value{fn.Params[0]: a[0]}, visits: map[*ssa.BasicBlock]int{}, lastFork: map[*ssa.BasicBlock]int{}}
+			e.stack = append(e.stack, fr)
+			saved := e.cur
+			e.runFrame(fr)
+			e.stack = e.stack[:len(e.stack)-1]
+			e.cur = saved
+			return fr.result
+		}
+	}
+	I["(*net/url.URL).Hostname"] = hostPart("hostname")
+	I["(*net/url.URL).Port"] = hostPart("port")
+	I["net.ParseIP"] = func(e *Exec, fn *ssa.Function, a []Value) Value {
+		s, ok := a[0].(*Term).strVal()
+		if !ok {
+			e.unsupported("net.ParseIP on a symbolic string (string parsing of addresses is outside the encoding)")
+		}
+		ipv := net.ParseIP(s)
+		if ipv == nil {
+			return &SliceVal{isNil: true}
+		}
+		var es []Value
+		for _, b := range ipv {
+			if e.bvMode {
+				es = append(es, mkBV(uint64(b), 8))
+			} else {
+				es = append(es, mkInt(int64(b)))
+			}
+		}
+		return e.mkSlice(types.Typ[types.Uint8], es)
+	}
+	I["net.JoinHostPort"] = func(e *Exec, fn *ssa.Function, a []Value) Value {
+		hst, prt := a[0].(*Term), a[1].(*Term)
+		return mkIte(mkContains(hst, mkStr(":")), mkConcat(mkStr("["), hst, mkStr("]:"), prt), mkConcat(hst, mkStr(":"), prt))
+	}
+	// url.Parse: concrete input is parsed natively; otherwise every field of the
+	// result is an uninterpreted function of the input string (the parser
+	// differential Go vs browser is not decided by this machinery)
+	I["net/url.Parse"] = func(e *Exec, fn *ssa.Function, a []Value) Value {
+		s := a[0].(*Term)
+		t := e.errorsPkgType("net/url", "URL")
+		st := under(t).(*types.Struct)
+		val := e.zero(t).(*StructVal)
+		fs := make([]Value, len(val.fields))
+		copy(fs, val.fields)
+		if sv, ok := s.strVal(); ok {
+			u, err := url.Parse(sv)
+			if err != nil {
+				return tuple(&Pointer{}, e.newError("parse error"))
+			}
+			for i := 0; i < st.NumFields(); i++ {
+				switch st.Field(i).Name() {
+				case "Scheme":
+					fs[i] = mkStr(u.Scheme)
+				case "Opaque":
+					fs[i] = mkStr(u.Opaque)
+				case "Host":
+					fs[i] = mkStr(u.Host)
+				case "Path":
+					fs[i] = mkStr(u.Path)
+				case "RawPath":
+					fs[i] = mkStr(u.RawPath)
+				case "RawQuery":
+					fs[i] = mkStr(u.RawQuery)
+				case "Fragment":
+					fs[i] = mkStr(u.Fragment)
+				case "RawFragment":
+					fs[i] = mkStr(u.RawFragment)
+				case "ForceQuery":
+					fs[i] = mkBool(u.ForceQuery)
+				case "OmitHost":
+					fs[i] = mkBool(u.OmitHost)
+				}
+			}
+			return tuple(&Pointer{obj: e.newObject(t, &StructVal{fs}, "url")}, nilIface)
+		}
+		// re-parsing the String() of an already parsed URL succeeds
+		if s.op != "uf:url_String" && !e.branch(mkUF("urlparse_ok", SBool, s)) {
+			return tuple(&Pointer{}, e.newError("parse error"))
+		}
+		for i := 0; i < st.NumFields(); i++ {
+			n := st.Field(i).Name()
+			switch n {
+			case "Scheme", "Opaque", "Host", "Path", "RawPath", "RawQuery", "Fragment", "RawFragment":
+				fs[i] = mkUF("urlparse_"+n, SStr, s)
+			case "ForceQuery":
+				fs[i] = mkUF("urlparse_"+n, SBool, s)
+			}
+		}
+		return tuple(&Pointer{obj: e.newObject(t, &StructVal{fs}, "url")}, nilIface)
 	}
 }
